@@ -6,7 +6,7 @@ from vlib.interp import execute, num
 from vlib.probe import Probe
 from vlib.scopelog import Structure, by_activity
 
-DUR = [None, 0, 0, 0.5, 1, 1, 2, 2, 3, 5]
+DUR = [None, 0, 0, 0.5, 1, 1, 2, 2, 3, 5, 4, 6, 7, 1.5, 2.5]
 
 
 def val(i):
@@ -17,7 +17,7 @@ def val(i):
 @st.composite
 def cases(draw, tier):
     big = tier == 'thorough'
-    n = draw(st.integers(0, 8 if big else 6))
+    n = draw(st.integers(0, 8))
     kind = draw(st.sampled_from(['collect', 'first', 'first']))
     eid = [0]
     acts = []
